@@ -65,6 +65,13 @@ def load_known(pid):
     return out
 
 
+def default_tags():
+    """Build tags selecting the drivers of the claimed properties (checks/CLAIMED)."""
+    p = os.path.join(VERIF, "checks", "CLAIMED")
+    ids = open(p).read().split() if os.path.exists(p) else []
+    return "verif " + " ".join(sorted(i.lower() for i in ids)) if ids else "verif all"
+
+
 def build_harness(tags="verif all"):
     """Rebuild the harness binary against /repo's working tree."""
     os.makedirs(os.path.dirname(BIN), exist_ok=True)
@@ -88,7 +95,7 @@ def build_harness(tags="verif all"):
 
 
 def bin_path(tags):
-    if tags == "verif all":
+    if tags == "verif all" or tags == default_tags():
         return BIN
     return BIN + "-" + re.sub(r'[^a-z0-9]+', "-", tags)
 
@@ -168,7 +175,7 @@ def print_assumptions(pid, meta, workdir):
             res[n] = "closed under the global context"
         else:
             ax = re.findall(r'^([A-Za-z0-9_\.\']+)\s*:', b, flags=re.M)
-            res[n] = ax
+            res[n] = [a for a in ax if a != "Axioms"]
     return res
 
 
@@ -253,7 +260,7 @@ def main(argv):
     ap.add_argument("--seed", type=int, default=int(os.environ.get("VERIF_SEED", "1") or 1))
     ap.add_argument("--replay", default="")
     ap.add_argument("--keep", action="store_true", help="keep the work directory")
-    ap.add_argument("--tags", default="verif all", help="(development) harness build tags")
+    ap.add_argument("--tags", default=default_tags(), help="(development) harness build tags")
     ap.add_argument("--dev", action="store_true", help="(development) restrict the forbidden-vernacular scan to Lib/ and this property's files")
     a = ap.parse_args(argv)
     pid = a.id
